@@ -1,11 +1,17 @@
-/* C03: PROVED contract of secp256k1_der_parse_integer, stated with the X.690 INTEGER specification
- * spec_der_int (contracts/spec_der.h).
+/* C03: PROVED contract of secp256k1_der_parse_integer and how it is used.
  *
- * PI_POST is one text used twice:
- *   - unit C03.der.parse_integer asserts it on the REAL function for every byte string (that is the proof);
- *   - unit C03.der.sig_parse replaces the two calls inside secp256k1_ecdsa_sig_parse by this contract and
- *     reasons about the SEQUENCE framing on top of it (lemma over the contract).
- * The replaced calls record (start pointer, bytes available, spec result) in ghost slots 0 and 1. */
+ * Unit C03.der.parse_integer proves, on the REAL function and for every byte string, PI_POST:
+ *   with I = spec_der_int(oldp, avail) (X.690 8.3 INTEGER, contracts/spec_der.h):
+ *   return = I.ok; on acceptance the read pointer advances by I.total (3 <= I.total <= avail), the scalar is
+ *   reduced, equals the encoded value if 0 <= value < n and is zero otherwise.
+ *
+ * Unit C03.der.sig_parse replaces the two calls inside secp256k1_ecdsa_sig_parse by the contract below.  The
+ * contract does not re-evaluate the specification (the monolithic miter "real parser == spec_der_sig" stayed
+ * undecided for 40 min on MiniSat, CaDiCaL and Z3); it RECORDS in ghost slots 0/1 where each INTEGER was read
+ * (offset, bytes available) and what the call answered (ok, total, inrange, scalar).  By PI_POST these answers
+ * ARE spec_der_int at that position, so the framing obligations of der.sig_parse, read with
+ * slot i = spec_der_int(buf + off_i, av_i), are literally the definition of spec_der_sig
+ * (unit C03.der.spec_compose checks that unfolding mechanically). */
 #ifndef C03_DER_CONTRACTS_H
 #define C03_DER_CONTRACTS_H
 
@@ -16,31 +22,33 @@ static unsigned char spec_scalar_byte(const secp256k1_scalar *a, size_t i) { ret
 static int spec_scalar_is_zero(const secp256k1_scalar *a) { return (a->d[0] | a->d[1] | a->d[2] | a->d[3]) == 0; }
 #endif
 
-/* ret: return value; r: result scalar; newp/oldp: read pointer after/before; I: spec_der_int(oldp, sigend - oldp) */
-#define PI_POST(ret, r, newp, oldp, I) \
-    (((ret) == 0 || (ret) == 1) && (ret) == (I).ok && \
-     (!(ret) || ((newp) == (oldp) + (I).total && scalar_ok(r) && \
-                 spec_scalar_byte((r), g_j) == spec_der_int_vbyte((oldp), (I), g_j) && \
+/* abstract part (what the caller relies on); PEQ = pointer equality operator */
+#define PEQ_PLAIN(a, b) ((a) == (b))
+#define PEQ_DFCC(a, b) __CPROVER_pointer_equals((void *)(a), (void *)(b))
+#define PI_POST_ABS(PEQ, ret, r, newp, oldp, avail, I) \
+    (((ret) == 0 || (ret) == 1) && (ret) == (I).ok && ((I).inrange == 0 || (I).inrange == 1) && \
+     (!(ret) || ((I).total >= 3 && (I).total <= (avail) && PEQ((newp), (oldp) + (I).total) && scalar_ok(r) && \
                  ((I).inrange || spec_scalar_is_zero(r)))))
+/* full contract = abstract part + the value */
+#define PI_POST(PEQ, ret, r, newp, oldp, avail, I) \
+    (PI_POST_ABS(PEQ, ret, r, newp, oldp, avail, I) && \
+     (!(ret) || spec_scalar_byte((r), g_j) == spec_der_int_vbyte((oldp), (I), g_j)))
 
-static int spec_int_is(const unsigned char *b, size_t avail, const spec_int *I) {
-    spec_int J = spec_der_int(b, avail);
-    return J.ok == I->ok && J.total == I->total && J.inrange == I->inrange && J.moff == I->moff && J.ml == I->ml;
-}
-
-int g_pi_n; const unsigned char *g_pi_p0, *g_pi_p1; size_t g_pi_av0, g_pi_av1; spec_int g_pi_I0, g_pi_I1;
+/* ghost call log */
+int g_pi_n; size_t g_pi_off0, g_pi_off1, g_pi_av0, g_pi_av1; spec_int g_pi_cur, g_pi_I0, g_pi_I1; secp256k1_scalar g_pi_v0, g_pi_v1;
+#define I_SAME(a, b) ((a).ok == (b).ok && (a).total == (b).total && (a).inrange == (b).inrange)
+#define I_KEEP(a) ((a).ok == __CPROVER_old((a).ok) && (a).total == __CPROVER_old((a).total) && (a).inrange == __CPROVER_old((a).inrange))
 #define PI_SLOT(i) \
-  __CPROVER_ensures(__CPROVER_old(g_pi_n) == i ==> (g_pi_p##i == __CPROVER_old(*sig) && g_pi_av##i == (size_t)(sigend - __CPROVER_old(*sig)) && \
-        spec_int_is(g_pi_p##i, g_pi_av##i, &g_pi_I##i) && PI_POST(__CPROVER_return_value, r, *sig, g_pi_p##i, g_pi_I##i))) \
-  __CPROVER_ensures(__CPROVER_old(g_pi_n) != i ==> (g_pi_p##i == __CPROVER_old(g_pi_p##i) && g_pi_av##i == __CPROVER_old(g_pi_av##i) && \
-        g_pi_I##i.ok == __CPROVER_old(g_pi_I##i.ok) && g_pi_I##i.total == __CPROVER_old(g_pi_I##i.total) && g_pi_I##i.inrange == __CPROVER_old(g_pi_I##i.inrange) && \
-        g_pi_I##i.moff == __CPROVER_old(g_pi_I##i.moff) && g_pi_I##i.ml == __CPROVER_old(g_pi_I##i.ml)))
+  __CPROVER_ensures(__CPROVER_old(g_pi_n) == i ==> (g_pi_off##i == __CPROVER_POINTER_OFFSET(__CPROVER_old(*sig)) && g_pi_av##i == (size_t)(sigend - __CPROVER_old(*sig)) && \
+        I_SAME(g_pi_I##i, g_pi_cur) && SC_EQ(g_pi_v##i, *r))) \
+  __CPROVER_ensures(__CPROVER_old(g_pi_n) != i ==> (g_pi_off##i == __CPROVER_old(g_pi_off##i) && g_pi_av##i == __CPROVER_old(g_pi_av##i) && I_KEEP(g_pi_I##i) && SC_KEEP(g_pi_v##i)))
 static int secp256k1_der_parse_integer(secp256k1_scalar *r, const unsigned char **sig, const unsigned char *sigend)
 __CPROVER_requires(__CPROVER_w_ok(r, sizeof(*r)) && __CPROVER_rw_ok(sig, sizeof(*sig)))
 __CPROVER_requires(__CPROVER_same_object(*sig, sigend) && __CPROVER_POINTER_OFFSET(*sig) <= __CPROVER_POINTER_OFFSET(sigend) && (*sig == sigend || __CPROVER_r_ok(*sig, sigend - *sig)))
 __CPROVER_requires(g_pi_n == 0 || g_pi_n == 1)
-__CPROVER_assigns(*r, *sig, g_pi_n, g_pi_p0, g_pi_p1, g_pi_av0, g_pi_av1, g_pi_I0, g_pi_I1)
+__CPROVER_assigns(*r, *sig, g_pi_n, g_pi_off0, g_pi_off1, g_pi_av0, g_pi_av1, g_pi_cur, g_pi_I0, g_pi_I1, g_pi_v0, g_pi_v1)
 __CPROVER_ensures(g_pi_n == __CPROVER_old(g_pi_n) + 1)
+__CPROVER_ensures(PI_POST_ABS(PEQ_DFCC, __CPROVER_return_value, r, *sig, __CPROVER_old(*sig), (size_t)(sigend - __CPROVER_old(*sig)), g_pi_cur))
 PI_SLOT(0) PI_SLOT(1)
 ;
 #endif
